@@ -38,6 +38,24 @@ def make_sources() -> list[Any]:
     return srcs
 
 
+_REV_CLS: list = []
+
+
+def rev_source_cls() -> Any:
+    """a user-defined source class: an in-memory text source with one more compared field"""
+    if not _REV_CLS:
+        from dataclasses import dataclass, field
+
+        from pyoak.origin import MemoryTextSource
+
+        @dataclass(frozen=True)
+        class RevSource(MemoryTextSource):
+            rev: int = field(default=0, kw_only=True)
+
+        _REV_CLS.append(RevSource)
+    return _REV_CLS[0]
+
+
 def source_text(i: int) -> str | None:
     return TEXTS[i] if i < 3 else None
 
@@ -70,6 +88,8 @@ def build_origin(spec: list, sources: list[Any], fresh: bool = False) -> Any:
         return CodeOrigin(source=sources[s], position=make_range(source_text(s), lo, hi))
     if kind == "gen":
         return GeneratedCodeOrigin(source=sources[spec[1]])
+    if kind == "rev":  # generated origin over a source of a user-defined class; sources differ in `rev` only
+        return GeneratedCodeOrigin(source=rev_source_cls()(TEXTS[0], source_uri="mem://rev", rev=spec[1]))
     if kind == "whole":  # the plain base class with the whole-source position singleton
         from pyoak.origin import EntireSourcePosition, Origin
 
@@ -104,6 +124,8 @@ def origin_spec_of(o: Any, sources: list[Any]) -> list:
 
     if type(o) is O.NoOrigin:
         return ["no"]
+    if type(o) is O.GeneratedCodeOrigin and type(o.source).__name__ == "RevSource":
+        return ["rev", o.source.rev]
     if type(o) is O.GeneratedCodeOrigin:
         return ["gen", src_index(o.source)]
     if type(o) is O.CodeOrigin:
@@ -137,10 +159,12 @@ def st_simple_origin(max_index: int = 40):
     return st.one_of(code, code, code, gen, gen, xml, xml, whole)
 
 
-def st_origin(max_index: int = 40, allow_no: bool = True):
+def st_origin(max_index: int = 40, allow_no: bool = True, rev: bool = False):
     from hypothesis import strategies as st
 
     simple = st_simple_origin(max_index)
+    if rev:
+        simple = st.one_of(simple, simple, simple, st.integers(1, 2).map(lambda k: ["rev", k]))
     multi = st.lists(simple, min_size=2, max_size=4).map(lambda ms: ["multi", ms])
     opts = [simple, simple, simple, multi]
     if allow_no:
